@@ -32,6 +32,35 @@ def Case.snaps (c : Case) : List String :=
 def Case.hasKernel (c : Case) : Bool :=
   if c.fam.isGroup then c.mode == .std else c.fam.modeOf c.mode == .std
 
+/-! ### the poll-state table (`Debug` of the array / Vec `join` and `try_join`) -/
+
+def PS.text : PS → String
+  | .none => "None"
+  | .pending => "Pending"
+  | .ready => "Ready"
+
+/-- what `{:?}` of the real combinator prints: the list of its `PollState`s -/
+def Fix.psText (s : Fix) : String :=
+  "[" ++ ", ".intercalate ((List.range s.n).map (fun i => (s.st i).text)) ++ "]"
+
+def Op.isPoll : Op → Bool
+  | .poll _ => true
+  | _ => false
+
+/-- the table after every poll of the history -/
+def psAux (P : Policy Fix) : Eng Fix → List Op → List String
+  | _, [] => []
+  | e, op :: ops =>
+    let e' := FEng.step P e op
+    (if op.isPoll then [e'.s.psText] else []) ++ psAux P e' ops
+
+def Case.psTables (c : Case) : List String :=
+  psAux c.fam.policy (FEng.init c.fam c.mode c.n c.scripts) c.ops
+
+/-- the families whose real `Debug` output is the table -/
+def Case.hasPsTable (c : Case) : Bool :=
+  c.fam == .joinSlice || c.fam == .tryJoinSlice
+
 /-- compare with the implementation's snapshots (`-`: it has not touched a readiness set yet);
     result: (agree, number of snapshots compared) -/
 def snapsAgree : List String → List String → Bool × Nat
